@@ -214,7 +214,6 @@ func TestC19_UnusedImports(t *testing.T) {
 		Check: c19Check})
 }
 
-
 // c19Multi: several files requested in one call, importers before their imports, optionally with the
 // first name repeated many times in between (repeats are no-ops for the compiler but keep the request
 // loop busy while the first file's task already creates results for its imports).
